@@ -1082,6 +1082,7 @@ type schedCfg struct {
 	spec    *spec
 	threads []int      // leaf index driven by each thread
 	menus   [][]string // per thread: alternatives, each a space-separated list of updates "s:RUNNING" / "t:ACTIVE"
+	prelude []string   // "<leaf> <update>" applied one after the other before the threads start (the tree is not fresh)
 	q, t    vrt.Bounds
 }
 
@@ -1144,6 +1145,19 @@ func schedScenario(c schedCfg) *vrt.Scenario {
 		}
 		errFed := false
 		done := 0
+		for _, p := range c.prelude {
+			var leaf int
+			var us string
+			fmt.Sscanf(p, "%d %s", &leaf, &us)
+			u := parseUpd(leaf, us)
+			if !u.status && u.st == sm.ERROR && t.leaves[u.leaf].crit {
+				errFed = true
+			}
+			t.apply(u)
+		}
+		if len(c.prelude) > 0 {
+			names = append([]string{"after " + strings.Join(c.prelude, ", ")}, names...)
+		}
 		for i := range plan {
 			us := plan[i]
 			for _, u := range us {
@@ -1296,6 +1310,11 @@ func main() {
 		schedScenario(schedCfg{name: "hooks-vs-task", spec: A(A(tC, CD())), threads: []int{0, 1},
 			menus: [][]string{{"s:RUNNING", "s:ERROR", "s:ERROR s:RUNNING"}, {"s:ERROR h:trig", "h:all", "t:ACTIVE h:trig"}},
 			q:     vrt.Bounds{Dev: 2, Seconds: 100}, t: vrt.Bounds{Dev: 3, Seconds: 600}}),
+		// an inner aggregator goes X -> Y -> X under three updaters (needs a tree that is not fresh)
+		schedScenario(schedCfg{name: "three-under-one", spec: A(A(tC, tC, A(tC))), threads: []int{0, 1, 2},
+			prelude: []string{"0 t:ACTIVE", "1 t:UNDEPLOYABLE", "2 t:ACTIVE", "0 s:RUNNING", "1 s:ERROR", "2 s:RUNNING"},
+			menus:   [][]string{{"t:INACTIVE", "s:CONFIGURED"}, {"t:ACTIVE", "s:RUNNING"}, {"t:UNDEPLOYABLE", "s:ERROR"}},
+			q:       vrt.Bounds{Dev: 2, Seconds: 100}, t: vrt.Bounds{Dev: 3, Seconds: 900}}),
 		schedScenario(schedCfg{name: "three-with-call", spec: A(A(tC, tC), cC), threads: []int{0, 1, 2}, menus: [][]string{{"s:RUNNING", "s:ERROR"}, {"s:RUNNING", "t:ACTIVE"}, callMenu},
 			q: vrt.Bounds{Dev: 1, Seconds: 100}, t: vrt.Bounds{Dev: 2, Seconds: 900}}),
 	})
